@@ -1112,8 +1112,8 @@ def run_selfop(spec, rec):
 
 def subchecks(tier):
     return [
-        Sub("tree", tree_spec(), run_tree, quick=5500, thorough=150000),
-        Sub("rewrite", rewrite_spec(), run_rewrite, quick=1800, thorough=40000),
-        Sub("values", values_spec(), run_values, quick=2500, thorough=50000),
-        Sub("selfop", selfop_spec(), run_selfop, quick=2400, thorough=40000),
+        Sub("tree", tree_spec(), run_tree, quick=11000, thorough=150000),
+        Sub("rewrite", rewrite_spec(), run_rewrite, quick=3600, thorough=40000),
+        Sub("values", values_spec(), run_values, quick=5000, thorough=50000),
+        Sub("selfop", selfop_spec(), run_selfop, quick=4800, thorough=60000),
     ]
